@@ -10,14 +10,20 @@
 (* the live set - never both, never neither.                               *)
 (* `pend' = folders whose (timed) restore is in progress: when it          *)
 (* completes the folder's deleted files come back (by name).               *)
+(* `on' = the node that owns the file system is ON (an environment         *)
+(* variable here - its timing is NodePower.tla's, property C12): while it  *)
+(* is not, every operation is refused and nothing moves; the per-tick      *)
+(* counters start at zero in every tick whatever the power state.          *)
 (***************************************************************************)
 EXTENDS Naturals, Sequences, FiniteSets
 
-VARIABLES folders, files, pend, ncreate, ndelete
-fvars == <<folders, files, pend, ncreate, ndelete>>
+VARIABLES folders, files, pend, ncreate, ndelete, on
+fvars == <<folders, files, pend, ncreate, ndelete, on>>
 
-FsInit(fo0, fi0) ==
-    /\ folders = fo0 /\ files = fi0 /\ pend = {} /\ ncreate = 0 /\ ndelete = 0
+\* (nc0, nd0: what the counters say before the first tick - files declared in the scenario are counted as creations)
+FsInitP(fo0, fi0, on0, nc0, nd0) ==
+    /\ folders = fo0 /\ files = fi0 /\ pend = {} /\ ncreate = nc0 /\ ndelete = nd0 /\ on = on0
+FsInit(fo0, fi0) == FsInitP(fo0, fi0, TRUE, 0, 0)
 
 FolderIds == 1..Len(folders)
 FileIds == 1..Len(files)
@@ -52,7 +58,7 @@ TheFolder(fo) == CHOOSE i \in LiveFolders(fo) : TRUE
 
 \* create a file `fi' in folder `fo' (the folder is created when there is no live folder of that name);
 \* creating a file that already exists is a no-op (or refused) - never a duplicate
-CreateFileNext(fo, fi) ==
+CreateFileNextOn(fo, fi) ==
     IF FolderAvailable(fo)
     THEN IF LiveFiles(TheFolder(fo), fi) # {}
          THEN Out(BOOLEAN, folders, files)
@@ -60,19 +66,19 @@ CreateFileNext(fo, fi) ==
     ELSE Out({TRUE}, Append(folders, [name |-> fo, del |-> FALSE]),
                      Append(files, [folder |-> Len(folders) + 1, name |-> fi, del |-> FALSE]))
 
-CreateFolderNext(fo) ==
+CreateFolderNextOn(fo) ==
     IF FolderAvailable(fo) THEN Out(BOOLEAN, folders, files)
     ELSE Out({TRUE}, Append(folders, [name |-> fo, del |-> FALSE]), files)
 
 \* delete a file: refused unless it is available; moves it to the deleted set
-DeleteFileNext(fo, fi) ==
+DeleteFileNextOn(fo, fi) ==
     IF FileAvailable(fo, fi)
     THEN LET j == CHOOSE k \in LiveFiles(TheFolder(fo), fi) : TRUE
          IN  Out({TRUE}, folders, [files EXCEPT ![j].del = TRUE])
     ELSE Refused
 
 \* delete a folder: refused unless available (and never the root); its files go with it
-DeleteFolderNext(fo) ==
+DeleteFolderNextOn(fo) ==
     IF FolderAvailable(fo) /\ fo # "root"
     THEN LET F == TheFolder(fo) IN
          Out({TRUE}, [folders EXCEPT ![F].del = TRUE],
@@ -81,7 +87,7 @@ DeleteFolderNext(fo) ==
 
 \* restore a file: a live file of that name stays; otherwise exactly one deleted file of that name
 \* in that (live) folder moves back to the live set; otherwise refused
-RestoreFileNext(fo, fi) ==
+RestoreFileNextOn(fo, fi) ==
     IF ~FolderAvailable(fo) THEN Refused
     ELSE LET F == TheFolder(fo) IN
          IF LiveFiles(F, fi) # {} THEN Out(BOOLEAN, folders, files)
@@ -93,7 +99,7 @@ RestoreFileNext(fo, fi) ==
 \* restore a folder: a live folder of that name starts restoring its content; otherwise one deleted folder
 \* of that name moves back to the live set and starts restoring; otherwise refused.
 \* (files come back when the timed restore completes - see TickNext)
-RestoreFolderNext(fo) ==
+RestoreFolderNextOn(fo) ==
     IF FolderAvailable(fo) THEN Out(BOOLEAN, folders, files)
     ELSE IF DeadFolders(fo) # {}
          THEN UNION {Out({TRUE}, [folders EXCEPT ![D].del = FALSE], files) : D \in DeadFolders(fo)}
@@ -105,14 +111,26 @@ RestoreFolderPend(fo, fo2) ==
 
 \* any other operation on a file / folder (scan, repair, corrupt, checkhash, access ...):
 \* only available on live items; never changes the structure
-FileOpNext(fo, fi) == IF FileAvailable(fo, fi) THEN Out(BOOLEAN, folders, files) ELSE Refused
-FolderOpNext(fo) == IF FolderAvailable(fo) THEN Out(BOOLEAN, folders, files) ELSE Refused
+FileOpNextOn(fo, fi) == IF FileAvailable(fo, fi) THEN Out(BOOLEAN, folders, files) ELSE Refused
+FolderOpNextOn(fo) == IF FolderAvailable(fo) THEN Out(BOOLEAN, folders, files) ELSE Refused
+
+\* the node is not ON: every operation is refused, nothing moves
+CreateFileNext(fo, fi) == IF on THEN CreateFileNextOn(fo, fi) ELSE Refused
+CreateFolderNext(fo) == IF on THEN CreateFolderNextOn(fo) ELSE Refused
+DeleteFileNext(fo, fi) == IF on THEN DeleteFileNextOn(fo, fi) ELSE Refused
+DeleteFolderNext(fo) == IF on THEN DeleteFolderNextOn(fo) ELSE Refused
+RestoreFileNext(fo, fi) == IF on THEN RestoreFileNextOn(fo, fi) ELSE Refused
+RestoreFolderNext(fo) == IF on THEN RestoreFolderNextOn(fo) ELSE Refused
+FileOpNext(fo, fi) == IF on THEN FileOpNextOn(fo, fi) ELSE Refused
+FolderOpNext(fo) == IF on THEN FolderOpNextOn(fo) ELSE Refused
 
 \* a tick: restores in progress may complete; then deleted files of that folder come back, one per name
 \* and never next to a live file of the same name.  Nothing else moves.
 Eligible == {j \in FileIds : files[j].del /\ files[j].folder \in pend /\ ~folders[files[j].folder].del}
 Undelete(S) == [j \in FileIds |-> IF j \in S THEN [files[j] EXCEPT !.del = FALSE] ELSE files[j]]
 TickNext == {[ok |-> TRUE, fo |-> folders, fi |-> Undelete(S)] : S \in {X \in SUBSET Eligible : UniqueLiveNames(folders, Undelete(X))}}
+\* (a tick during which the node is not ON at either end moves nothing: Node.apply_timestep works on the file system only while ON -
+\*  not demanded here, C12's NoWorkUnlessOn does)
 
 \* --- actions -----------------------------------------------------------------
 Apply(outs, ok, fo2, fi2) ==
@@ -122,32 +140,39 @@ Apply(outs, ok, fo2, fi2) ==
 CreateFile(fo, fi, ok, fo2, fi2, nc2) ==
     /\ Apply(CreateFileNext(fo, fi), ok, fo2, fi2)
     /\ nc2 \in {ncreate, ncreate + 1}
-    /\ ncreate' = nc2 /\ UNCHANGED <<pend, ndelete>>
+    /\ ncreate' = nc2 /\ UNCHANGED <<pend, ndelete, on>>
 CreateFolder(fo, ok, fo2, fi2) ==
-    Apply(CreateFolderNext(fo), ok, fo2, fi2) /\ UNCHANGED <<pend, ncreate, ndelete>>
+    Apply(CreateFolderNext(fo), ok, fo2, fi2) /\ UNCHANGED <<pend, ncreate, ndelete, on>>
 DeleteFile(fo, fi, ok, fo2, fi2, nd2) ==
     /\ Apply(DeleteFileNext(fo, fi), ok, fo2, fi2)
     /\ nd2 \in {ndelete, ndelete + 1}   \* (counting accuracy is not part of the property)
-    /\ ndelete' = nd2 /\ UNCHANGED <<pend, ncreate>>
+    /\ ndelete' = nd2 /\ UNCHANGED <<pend, ncreate, on>>
 DeleteFolder(fo, ok, fo2, fi2) ==
-    Apply(DeleteFolderNext(fo), ok, fo2, fi2) /\ UNCHANGED <<pend, ncreate, ndelete>>
+    Apply(DeleteFolderNext(fo), ok, fo2, fi2) /\ UNCHANGED <<pend, ncreate, ndelete, on>>
 RestoreFile(fo, fi, ok, fo2, fi2) ==
-    Apply(RestoreFileNext(fo, fi), ok, fo2, fi2) /\ UNCHANGED <<pend, ncreate, ndelete>>
+    Apply(RestoreFileNext(fo, fi), ok, fo2, fi2) /\ UNCHANGED <<pend, ncreate, ndelete, on>>
 RestoreFolder(fo, ok, fo2, fi2) ==
     /\ Apply(RestoreFolderNext(fo), ok, fo2, fi2)
     /\ pend' = RestoreFolderPend(fo, fo2)
-    /\ UNCHANGED <<ncreate, ndelete>>
+    /\ UNCHANGED <<ncreate, ndelete, on>>
 FileOp(fo, fi, ok, fo2, fi2) ==
-    Apply(FileOpNext(fo, fi), ok, fo2, fi2) /\ UNCHANGED <<pend, ncreate, ndelete>>
+    Apply(FileOpNext(fo, fi), ok, fo2, fi2) /\ UNCHANGED <<pend, ncreate, ndelete, on>>
 FolderOp(fo, ok, fo2, fi2) ==
-    Apply(FolderOpNext(fo), ok, fo2, fi2) /\ UNCHANGED <<pend, ncreate, ndelete>>
+    Apply(FolderOpNext(fo), ok, fo2, fi2) /\ UNCHANGED <<pend, ncreate, ndelete, on>>
 PreTick(fo2, fi2, nc2, nd2) ==
     /\ fo2 = folders /\ fi2 = files
     /\ nc2 = 0 /\ nd2 = 0          \* the per-tick counters start every tick at zero
     /\ ncreate' = 0 /\ ndelete' = 0
-    /\ UNCHANGED <<folders, files, pend>>
-Tick(fo2, fi2) ==
+    /\ UNCHANGED <<folders, files, pend, on>>
+\* a tick may complete a start-up or a shut-down (on2 = the node is ON afterwards)
+Tick(fo2, fi2, on2) ==
     /\ Apply(TickNext, TRUE, fo2, fi2)
     /\ pend' \in SUBSET pend
+    /\ on' = on2
     /\ UNCHANGED <<ncreate, ndelete>>
+\* a power request (start-up, shut-down, reset) to the node: the structure and the counters stay
+Power(fo2, fi2, on2) ==
+    /\ fo2 = folders /\ fi2 = files
+    /\ on' = on2
+    /\ UNCHANGED <<folders, files, pend, ncreate, ndelete>>
 =============================================================================
